@@ -75,6 +75,10 @@ pub struct Instance {
     /// Ops programs: the caller may also drop a pending write() future (the packet being written is
     /// then torn by the caller's own doing; keep-alive replies must stay whole and single all the same)
     pub cancel_writes: bool,
+    /// packets written (and accepted whole, their bytes set aside) before the program starts
+    pub preamble: Vec<insim::Packet>,
+    /// Ops programs: a written Packet::Isi goes through handshake() instead of write()
+    pub isi_via_handshake: bool,
     /// the write half offers only {1 byte, everything} (long write sequences)
     pub accept_few: bool,
     /// compare with the other implementation on histories both can execute
@@ -104,6 +108,8 @@ impl Instance {
             storm_budget: 0,
             handshake: None,
             cancel_writes: false,
+            preamble: vec![],
+            isi_via_handshake: false,
             accept_few: false,
             differential: false,
         }
